@@ -6,16 +6,19 @@ from props import srv_common as sc
 COMP = "srv"
 BIN = "vh-srv"
 
-# (module, edge cfg, simulate cfg or None, quick sample of the edge behaviours, note)
+# (module, quick edge cfgs, thorough edge cfgs, simulate cfg or None, quick sample of the edge behaviours, note)
 PARTS = [
-    ("OrchAbs", "Orch_edge.cfg", "Orch_sim.cfg", 900,
+    ("OrchAbs", ["Orch_edge.cfg"], ["Orch_edge.cfg"], "Orch_sim.cfg", 900,
      "orchestrator: 2 members x {ok,error,panic} x {gate,ctx} x {new,running,finished}; add before start / while running / after cancel"),
-    ("GroupAbs", "Group_edge.cfg", "Group_sim.cfg", 600,
-     "group: 3 members x outcome x mode; start, start with a member parked in its Start (yield point), cancel, close"),
-    ("PoolAbs", "Pool_edge.cfg", "Pool_sim.cfg", 900,
-     "WorkerPool / HandlerWorkerPool: 3 jobs x outcome, 1-2 workers, continue-on-error on/off"),
-    ("CleanupAbs", "Cleanup_edge.cfg", None, 800,
-     "Cleanup service: 3 jobs x outcome; add before start / while running / racing Close (burst); start with a cancelled context"),
+    ("GroupAbs", ["Group_edge_q.cfg"], ["Group_edge.cfg", "Group_edge_pos.cfg"], "Group_sim.cfg", 700,
+     "group: 3 members x outcome x mode x {new, already running, already finished} (up to renaming; thorough: 2 members in every "
+     "position too); start, start with a member parked in its Start (yield point), cancel, close"),
+    ("PoolAbs", ["Pool_edge_q.cfg", "Pool_edge_q2.cfg"], ["Pool_edge.cfg"], "Pool_sim.cfg", 900,
+     "WorkerPool / HandlerWorkerPool: 3 jobs x outcome (incl. errors wrapping io.EOF / context errors), 1-2 workers, "
+     "continue-on-error on/off (quick: WorkerPool with continue-on-error; HandlerWorkerPool with 2 workers)"),
+    ("CleanupAbs", ["Cleanup_edge_q.cfg"], ["Cleanup_edge.cfg"], None, 900,
+     "Cleanup service: 3 jobs x outcome (ok, error, panic, errors wrapping io.EOF / context errors), one worker per CPU with "
+     "enough / 1 / 2 CPUs; add before start / while running / racing Close (burst); start with a cancelled context"),
 ]
 
 
@@ -29,23 +32,23 @@ def generate(rep, quick, seed):
     """Behaviour generation for the four abstract specs, side by side (quick: <= 6 TLC workers)."""
     import concurrent.futures as cf
     jobs = []
-    for mod, edge, sim, _, note in PARTS:
-        if quick and mod == "PoolAbs":
-            # quick tier: two smaller edge covers (WorkerPool with continue-on-error; HandlerWorkerPool)
-            jobs.append((mod, "Pool_edge_q.cfg", note + " (quick subset: WorkerPool, continue-on-error)", dict(workers=1, timeout=1500)))
-            jobs.append((mod, "Pool_edge_q2.cfg", note + " (quick subset: HandlerWorkerPool, 2 workers)", dict(workers=1, timeout=1500)))
-        else:
-            jobs.append((mod, edge, note, dict(workers=1, timeout=1500)))
+    for mod, qedge, tedge, sim, _, note in PARTS:
+        for cfg in (qedge if quick else tedge):
+            jobs.append((mod, cfg, note, dict(workers=1, timeout=1500)))
         if sim:
-            jobs.append((mod, sim, note + " - random deeper schedules with 4 units",
+            jobs.append((mod, sim, note + " - random deeper schedules with 4 units, all six outcome kinds",
                          dict(workers=1, timeout=1500, simulate=dict(num=150 if quick else 4000), depth=20, seed=seed)))
     # design level: implementation-shaped specs of the orchestrator's Run loop and of the Cleanup
     # service (fixed variants must satisfy C11; the as-is variants must show the two defects)
     impl = [("OrchImpl", "OrchMC.cfg", None, "orchestrator Run loop, 3 members x {new,running,finished}: StartedAtMostOnce AwaitedAll "
              "CollectsAll NoStranded WaitJustified + liveness Settles (fixed variant)"),
             ("OrchImpl", "OrchMC_asis.cfg", "AwaitedAll", "as-is variant: a service found running is awaited only until the orchestrator's context ends"),
-            ("CleanupImpl", "CleanupMC.cfg", None, "Cleanup service, 3 jobs: AtMostOnce AllAcceptedRun Completes + Settles (fixed variant)"),
-            ("CleanupImpl", "CleanupMC_asis.cfg", "AllAcceptedRun", "as-is variant: jobs still queued when the context ends are dropped")]
+            ("CleanupImpl", "CleanupMC.cfg", None, "Cleanup service, 3 jobs x {ok, failure, stop-signal error}, shutdown pool of 2 workers: "
+             "AtMostOnce AllAcceptedRun AllSurfaced Completes + Settles (fixed variant)"),
+            ("CleanupImpl", "CleanupMC_asis.cfg", "AllAcceptedRun", "as-is variant: jobs still queued when the context ends are dropped"),
+            ("CleanupImpl", "CleanupMC_nocollect.cfg", "AllAcceptedRun", "variant whose processor returns the job's error to the worker group: "
+             "an error wrapping io.EOF / a context error stops the pool before every accepted job ran"),
+            ("CleanupImpl", "CleanupMC_nocollect2.cfg", "AllSurfaced", "same variant: that error is not reported by Wait")]
     with cf.ThreadPoolExecutor(max_workers=6) as ex:
         futs = [ex.submit(tlc.run_tlc, COMP, mod, cfg, **kw) for mod, cfg, note, kw in jobs]
         ifuts = [ex.submit(tlc.run_tlc, COMP, mod, cfg, workers=1, timeout=900) for mod, cfg, want, note in impl]
@@ -70,7 +73,7 @@ def generate(rep, quick, seed):
     if not ok:
         return None
     behs = []
-    for mod, edge, sim, nq, note in PARTS:
+    for mod, qedge, tedge, sim, nq, note in PARTS:
         e = sc.maximal(out[mod].get("edge", []))
         behs += sc.sample(e, nq if quick else 20000, seed)
         rep.cov.setdefault("edge_behaviours", {})[mod] = dict(maximal=len(e), replayed=min(len(e), nq if quick else 20000))
@@ -90,6 +93,16 @@ def run(rep, tier, seed, replay_file=None):
         "than at-most-once are judged only while the pool runs (context live, no abort); accepted = Add returned nil before "
         "the shutdown event",
         "queues are unlimited; limited queues (Add may be refused) are not explored",
+        "job / member outcomes: ok, plain error, panic, blocks-until-cancel, and errors wrapping io.EOF / context.Canceled / "
+        "context.DeadlineExceeded.  The latter are failures like any other for Cleanup functions, Group and Orchestrator members "
+        "and for what HandlerWorkerPool hands to its observer; for WorkerPool they are the worker group's documented stop signals "
+        "(fun.WorkerGroupConf.CanContinueOnError: never observed, the group stops): such a job ends the regime 'the pool keeps "
+        "running' and Wait() is not required to report its error",
+        "Group: a member somebody else started before the group did (still running on its owner's context, or already finished) "
+        "is not started again, is awaited and its failure collected - the orchestrator clause of C11 applied to 'awaits them all'",
+        "Cleanup: jobs are invoked in the order of acceptance, min(accepted, returned + NumCPU) of them at quiescence; jobs, members "
+        "and pool jobs are interchangeable, so the edge covers explore their configurations up to renaming (sorted along the names); "
+        "Group member positions are varied by the random schedules and, thorough tier, by a 2-member cover without that reduction",
         "exhaustive claims hold for the constants of the cfg files only (edge cover: one shortest schedule per edge of the abstract state graph)",
     ]
     build = lambda: harness.build(BIN)
@@ -102,8 +115,22 @@ def run(rep, tier, seed, replay_file=None):
         return
     binary = build()
     env = {"GOMAXPROCS": str(2 + seed % 5)}
-    failures, results = sc.replay_collect(rep, binary, ["replay-c11"], behs, shards=8, env_extra=env,
-                                          label="c11", nontrivial=nontrivial, timeout=2400)
+    # the Cleanup service's shutdown pool has runtime.NumCPU() workers: behaviours that fix that number are replayed by
+    # a harness process pinned to as many CPUs ("ncpu=k", part of the saved replay arguments)
+    groups = {}
+    for i, b in enumerate(behs):
+        groups.setdefault(b["cfg"]["workers"] if b["cfg"]["comp"] == "cleanup" else 0, []).append(i)
+    results = {}
+    for k in sorted(groups):
+        idx = groups[k]
+        _, res = sc.replay_collect(rep, binary, ["replay-c11"] + (["ncpu=%d" % k] if k else []), [behs[i] for i in idx],
+                                   shards=8 if k == 0 else 4, env_extra=env, label="c11", nontrivial=nontrivial, timeout=2400)
+        for j, r in res.items():
+            results[idx[j]] = r
+    pinned = [i for k, idx in groups.items() if k for i in idx]
+    rep.self_test("pinning the harness to k CPUs gives the Cleanup service k workers (behaviours with a fixed number of CPUs are conclusive)",
+                  bool(pinned) and all(i in results and not results[i].get("inconclusive") for i in pinned),
+                  "%d behaviours" % len(pinned))
     by = {}
     for i, b in enumerate(behs):
         c = b["cfg"]["comp"]
@@ -126,7 +153,8 @@ def run(rep, tier, seed, replay_file=None):
         bad["steps"] = bad["steps"][:k + 1]
         name = bad["cfg"]["units"][0]["name"]
         bad["steps"][k]["exp"]["cnt"] = [dict(id=name, allow=[2])]
-        rc, outs, err = harness.run(binary, ["replay-c11"], [dict(n=0, beh=bad)], timeout=60)
+        nc = bad["cfg"]["workers"]
+        rc, outs, err = harness.run(binary, ["replay-c11"] + (["ncpu=%d" % nc] if nc else []), [dict(n=0, beh=bad)], timeout=60)
         res = [o for o in outs if o.get("n") == 0 and "begin" not in o]
         rep.self_test("replayer rejects a wrong count expectation", bool(res) and not res[0].get("ok"),
                       str({k: v for k, v in (res[0] if res else {}).items() if k != "hist"})[:200])
@@ -150,7 +178,8 @@ def run(rep, tier, seed, replay_file=None):
                   bool(hooked) and len(concl) >= 0.9 * len(hooked), "%d of %d" % (len(concl), len(hooked)))
     rep.cov["rule"] = ("behaviours = driver schedules of OrchAbs / GroupAbs / PoolAbs / CleanupAbs (add before start / while running / "
                        "racing shutdown / after cancel, start, cancel, close, release of gated members and jobs, Wait) over outcomes "
-                       "{ok,error,panic} x {gate, blocks-until-cancel} - edge cover of each abstract state graph (quick: seeded sample; "
+                       "{ok,error,panic,error wrapping io.EOF/context.Canceled/context.DeadlineExceeded} x {gate, blocks-until-cancel}, Group / "
+                       "Orchestrator members new / already running / already finished, Cleanup with enough / 1 / 2 CPUs - edge cover of each abstract state graph (quick: seeded sample; "
                        "thorough: all) plus random deeper schedules with 4 units - replayed step by step against the real srv package "
                        "with harness-supplied services/jobs (counters, gates, scripted outcomes) and observation at quiescence; "
                        "non-trivial = started, with work submitted, and at least one shutdown / release step")
